@@ -1,6 +1,8 @@
 INIT Init
 NEXT Next
 CONSTANTS
+  BBase = 1048576
+  BW = 7
   Week = 3
   TMax = 165
   Vals = {0, 1, 3}
